@@ -39,6 +39,14 @@ theorem step_sendFail {σ σ' : State} {d : D} (h : step σ (.sendFail d) = some
     σ' = σ.setDir d { σ.dir d with sendFails := true } := by
   simp only [step, Option.some.injEq] at h; exact h.symm
 
+theorem step_stall {σ σ' : State} {d : D} (h : step σ (.stall d) = some σ') :
+    σ' = σ.setDir d { σ.dir d with stalled := true } := by
+  simp only [step, Option.some.injEq] at h; exact h.symm
+
+theorem step_unstall {σ σ' : State} {d : D} (h : step σ (.unstall d) = some σ') :
+    σ' = σ.setDir d { σ.dir d with stalled := false } := by
+  simp only [step, Option.some.injEq] at h; exact h.symm
+
 theorem step_iniCancel {σ σ' : State} (h : step σ .iniCancel = some σ') : σ' = { σ with srvCtx := true } := by
   simp only [step, Option.some.injEq] at h; exact h.symm
 
@@ -129,8 +137,10 @@ theorem step_rProc {σ σ' : State} {d : D} (h : step σ (.rProc d) = some σ') 
   · rename_i i hl
     split at h
     · rename_i hok
-      simp only [Option.some.injEq] at h
-      exact Or.inl ⟨i, hl, hok, h.symm⟩
+      split at h
+      · cases h
+      · simp only [Option.some.injEq] at h
+        exact Or.inl ⟨i, hl, hok, h.symm⟩
     · rename_i hok
       simp only [Option.some.injEq] at h
       exact Or.inr ⟨_, hl, Or.inr (by simpa using hok), h.symm⟩
@@ -167,6 +177,7 @@ def halfClosed (σ : State) : Dir :=
 @[simp] theorem halfClosed_lis (σ : State) : (halfClosed σ).lis = σ.s.lis := by unfold halfClosed; split <;> rfl
 @[simp] theorem halfClosed_loop (σ : State) : (halfClosed σ).loop = σ.s.loop := by unfold halfClosed; split <;> rfl
 @[simp] theorem halfClosed_sendFails (σ : State) : (halfClosed σ).sendFails = σ.s.sendFails := by unfold halfClosed; split <;> rfl
+@[simp] theorem halfClosed_stalled (σ : State) : (halfClosed σ).stalled = σ.s.stalled := by unfold halfClosed; split <;> rfl
 @[simp] theorem halfClosed_sent (σ : State) : (halfClosed σ).sent = σ.s.sent := by unfold halfClosed; split <;> rfl
 @[simp] theorem halfClosed_delivered (σ : State) : (halfClosed σ).delivered = σ.s.delivered := by unfold halfClosed; split <;> rfl
 @[simp] theorem halfClosed_out (σ : State) : (halfClosed σ).out = σ.s.out := by unfold halfClosed; split <;> rfl
@@ -228,6 +239,8 @@ theorem step_env {σ σ' : State} {a : Act} (h : step σ a = some σ') : σ'.env
   cases a with
   | push d v => rw [step_push h]; cases d <;> rfl
   | sendFail d => rw [step_sendFail h]; cases d <;> rfl
+  | stall d => rw [step_stall h]; cases d <;> rfl
+  | unstall d => rw [step_unstall h]; cases d <;> rfl
   | iniCancel => rw [step_iniCancel h]
   | shutdown => rw [step_shutdown h]
   | tick => rw [(step_tick h).2.2.2.2]
